@@ -43,7 +43,7 @@ package core
 //@ requires [nonnil] bc != nil
 //@ requires [nonnil-blocks] forall k: int :: { chain[k] } 0 <= k && k < len(chain) ==> chain[k] != nil && chain[k].header != nil
 //@ modifies all, c11SideOK, c11Seal, c11Body, c11ExecBlk, c11ExecSt, c11ExecRes, c11StateBlk, c11StateSt, c11UnknownParentState, c11Parent,
-//@          c11DBCanon, c11DBHead, c11DBHeadHeader, c11DBPuts, c11DBBody, c11DBHeader, c11Written, c11StateCommitted, c11TrieFail, c11Lookups, c11BatchOK, c11LastIns, c11LastIdx, c11NC, c11Reorged, c11Missing
+//@          c11DBCanon, c11DBHead, c11DBHeadHeader, c11DBPuts, c11DBBody, c11DBHeader, c11Written, c11StateCommitted, c11TrieFail, c11Lookups, c11BatchOK, c11LastIns, c11LastIdx, c11NC, c11Reorged, c11Missing, c11ReorgStep
 // every iteration starts with nothing known about its block
 //@ ghost before call (*BlockChain).isInterrupted: c11Seal := nil
 //@ ghost before call (*BlockChain).isInterrupted: c11Body := nil
@@ -51,6 +51,9 @@ package core
 //@ ghost before call (*BlockChain).isInterrupted: c11StateBlk := nil
 //@ ghost before call (*BlockChain).isInterrupted: c11UnknownParentState := false
 //@ ghost before call (*BlockChain).isInterrupted: c11Parent := nil
+// no licence to move the head is carried into an iteration (insertChain itself never calls insert: a new call site must satisfy the guard)
+//@ ghost before call (*BlockChain).isInterrupted: c11Reorged := nil
+//@ ghost before call (*BlockChain).isInterrupted: c11ReorgStep := nil
 // the i-th value delivered by VerifyHeaders is the verdict on the i-th header (channel order: assumption); it is in `err`
 // when the first ValidateBody call is reached
 //@ ghost before call (Validator).ValidateBody#1: c11Seal := if err == nil then block else nil
@@ -90,8 +93,21 @@ package core
 //@ modifies hc.currentHeader.v, c11DBHeadHeader, c11DBPuts
 //@ ensures [head-header-marker] c11DBHeadHeader == c11HeaderHash(head)
 
+// THE GUARD ON THE PRIMITIVE. A block may be made head (index entry for its number + head markers) only if that keeps the index
+// from genesis to head parent-linked:
+//   * it extends the current head: its parent hash is the hash of the block in the in-memory head cell, or
+//   * reorg(current head, block) has just returned nil (c11Reorged, set in WriteBlockWithState), or
+//   * it is a step of reorg's own rewrite (c11ReorgStep, set only in reorg's contract; reorg's asserts verify that every such block
+//     is the child of the block made head just before, the first one of the common ancestor), or
+//   * it is block 0 (Reset: the index restarts at genesis).
+// As a precondition it is an obligation at EVERY call of insert / updateHeadBlock in a function under a C11 contract.
+//@ ghost var c11ReorgStep: *types.Block
+//@ spec func c11MayBecomeHead(bc: *BlockChain, block: *types.Block) bool =
+//@     c11ParentHash(block) == c11Hash(unbox(bc.currentBlock.v, *types.Block)) || c11Reorged == block || c11ReorgStep == block || c11Num(block) == 0
+
 //@ func (*BlockChain).updateHeadBlock props C11
 //@ requires [nonnil] bc != nil && block != nil && block.header != nil && block.header.Number != nil
+//@ requires [extends-head-or-reorged] c11MayBecomeHead(bc, block)
 //@ modifies bc.currentBlock.v, c11DBCanon, c11DBHead, c11DBPuts
 //@ assert before call core/rawdb.WriteHeadBlockHash: [canonical-index-before-head-marker] c11DBCanon[c11Num(block)] == c11Hash(block)
 //@ ensures [canonical-index] c11DBCanon == store(old(c11DBCanon), c11Num(block), c11Hash(block))
@@ -101,6 +117,7 @@ package core
 
 //@ func (*BlockChain).insert props C11
 //@ requires [nonnil] bc != nil && bc.hc != nil && block != nil && block.header != nil && block.header.Number != nil
+//@ requires [extends-head-or-reorged] c11MayBecomeHead(bc, block)
 //@ modifies bc.currentBlock.v, bc.hc.currentHeader.v, c11DBCanon, c11DBHead, c11DBHeadHeader, c11DBPuts
 //@ ensures [canonical-index] c11DBCanon == store(old(c11DBCanon), c11Num(block), c11Hash(block))
 //@ ensures [head-marker] c11DBHead == c11Hash(block)
@@ -129,7 +146,7 @@ package core
 
 //@ func (*BlockChain).WriteBlockWithState props C11
 //@ requires [nonnil] bc != nil && bc.hc != nil && block != nil && block.header != nil && block.header.Number != nil && state != nil
-//@ modifies all, c11DBCanon, c11DBHead, c11DBHeadHeader, c11DBPuts, c11DBBody, c11DBHeader, c11Written, c11StateCommitted, c11TrieFail, c11Lookups, c11BatchOK, c11LastIns, c11LastIdx, c11NC, c11Reorged, c11Missing
+//@ modifies all, c11DBCanon, c11DBHead, c11DBHeadHeader, c11DBPuts, c11DBBody, c11DBHeader, c11Written, c11StateCommitted, c11TrieFail, c11Lookups, c11BatchOK, c11LastIns, c11LastIdx, c11NC, c11Reorged, c11Missing, c11ReorgStep
 //@ ghost at entry: c11Written := nil
 //@ ghost at entry: c11StateCommitted := false
 //@ ghost at entry: c11TrieFail := false
@@ -228,6 +245,13 @@ package core
 //@ pure
 //@ ensures result != nil ==> c11Hash(result) == hash && result.header != nil && result.header.Number != nil
 
+// ResetWithGenesisBlock restarts the index at block 0 (Reset passes bc.genesisBlock: that it is block 0 is ASSUMED with Reset's `nobody` contract).
+//@ func (*BlockChain).ResetWithGenesisBlock props C11
+//@ requires [nonnil] bc != nil && bc.hc != nil && genesis != nil && genesis.header != nil && genesis.header.Number != nil
+//@ requires [genesis-is-block-0] c11Num(genesis) == 0
+//@ modifies all, c11DBCanon, c11DBHead, c11DBHeadHeader, c11DBPuts, c11DBBody, c11DBHeader
+//@ ensures [head-is-genesis] c11DBHead == c11Hash(genesis) && c11DBCanon[0] == c11Hash(genesis)
+
 //@ func (*BlockChain).Reset props C11
 //@ nobody
 //@ modifies all, c11DBCanon, c11DBHead, c11DBHeadHeader, c11DBPuts, c11DBBody, c11DBHeader
@@ -272,7 +296,7 @@ package core
 //@ requires [nonnil] bc != nil
 //@ requires [nonnil-blocks] forall k: int :: { chain[k] } 0 <= k && k < len(chain) ==> chain[k] != nil && chain[k].header != nil && chain[k].header.Number != nil
 //@ modifies all, c11VersionOK, c11SideOK, c11Seal, c11Body, c11ExecBlk, c11ExecSt, c11ExecRes, c11StateBlk, c11StateSt, c11UnknownParentState, c11Parent,
-//@          c11DBCanon, c11DBHead, c11DBHeadHeader, c11DBPuts, c11DBBody, c11DBHeader, c11Written, c11StateCommitted, c11TrieFail, c11Lookups, c11BatchOK, c11LastIns, c11LastIdx, c11NC, c11Reorged, c11Missing
+//@          c11DBCanon, c11DBHead, c11DBHeadHeader, c11DBPuts, c11DBBody, c11DBHeader, c11Written, c11StateCommitted, c11TrieFail, c11Lookups, c11BatchOK, c11LastIns, c11LastIdx, c11NC, c11Reorged, c11Missing, c11ReorgStep
 //@ ghost at entry: c11VersionOK := false
 //@ loop i invariant [linked-so-far] 1 <= i && c11Linked(chain, i)
 //@ ghost after call (*BlockChain).VerifyYouVersionState: c11VersionOK := ret1 == nil
@@ -291,7 +315,7 @@ package core
 //@ func (*BlockChain).insertSidechain props C11
 //@ requires [nonnil] bc != nil
 //@ modifies all, c11SideOK, c11Seal, c11Body, c11ExecBlk, c11ExecSt, c11ExecRes, c11StateBlk, c11StateSt, c11UnknownParentState, c11Parent,
-//@          c11DBCanon, c11DBHead, c11DBHeadHeader, c11DBPuts, c11DBBody, c11DBHeader, c11Written, c11StateCommitted, c11TrieFail, c11Lookups, c11BatchOK, c11LastIns, c11LastIdx, c11NC, c11Reorged, c11Missing
+//@          c11DBCanon, c11DBHead, c11DBHeadHeader, c11DBPuts, c11DBBody, c11DBHeader, c11Written, c11StateCommitted, c11TrieFail, c11Lookups, c11BatchOK, c11LastIns, c11LastIdx, c11NC, c11Reorged, c11Missing, c11ReorgStep
 //@ ghost at entry: c11SideOK := false
 //@ ghost after call (*BlockChain).verifyAllSideChainBlocks: c11SideOK := ret == nil
 //@ loop #2 invariant [verified] c11SideOK
@@ -331,7 +355,7 @@ package core
 
 //@ func (*BlockChain).reorg props C11
 //@ requires [nonnil] bc != nil && bc.hc != nil && oldBlock != nil && newBlock != nil
-//@ modifies all, c11DBCanon, c11DBHead, c11DBHeadHeader, c11DBPuts, c11LastIns, c11LastIdx, c11NC, c11Missing
+//@ modifies all, c11DBCanon, c11DBHead, c11DBHeadHeader, c11DBPuts, c11LastIns, c11LastIdx, c11NC, c11Missing, c11ReorgStep
 //@ ghost at entry: c11LastIns := nil
 //@ ghost at entry: c11Missing := false
 //@ ghost after call (*BlockChain).GetBlock: c11Missing := c11Missing || ret == nil
@@ -342,6 +366,7 @@ package core
 //@ loop #4 invariant [nothing-missing] !c11Missing
 //@ loop #4 invariant [non-empty] c11Num(old(oldBlock)) < c11Num(old(newBlock)) ==> len(newChain) > 0
 //@ loop #5 invariant [nothing-missing] !c11Missing
+//@ ghost before call (*BlockChain).insert: c11ReorgStep := a1
 //@ ghost after call (*BlockChain).insert: c11LastIns := a1
 //@ ghost after call (*BlockChain).insert: c11LastIdx := i
 //@ loop #1 invariant [new-side-untouched] c11LastIns == nil
